@@ -31,7 +31,7 @@ type c10Scenario struct {
 	Name  string            `json:"name"`
 	Files map[string]string `json:"files"`
 	Args  []string          `json:"args"`
-	Mid   []string          `json:"mid,omitempty"` // program reaching an intermediate committed state (explicit COMMIT inside Args)
+	Mid   []string          `json:"mid,omitempty"`   // program reaching an intermediate committed state (explicit COMMIT inside Args)
 	Links map[string]string `json:"links,omitempty"` // symbolic links created next to the files: name -> target (a table reached through a link)
 }
 
